@@ -14,6 +14,8 @@ from vlib import w as W
 from vlib.core import Ob
 
 PROPERTY_ID = "C06"
+ENGINE = 'E1 CrossHair 0.0.110 (z3) on the real code'
+TECHNIQUE = 'CrossHair symbolic execution of the real iter_splitlines (symbolic content, unbounded symbolic chunk size) and of the real format writers + every registered reader of the format with symbolic record names / symbolic sequence length and line width; all paths exhausted; counterexamples replayed through write() -> load_aligned_seqs on a real file'
 CLAIM = ("for every file content within the bound and EVERY chunk size k >= 1 (unbounded integer), iter_splitlines yields exactly content.splitlines(): chunk boundaries inside a line, on a newline, or between CR and LF change nothing; "
          "for every pair of distinct record names within the bound (incl. names containing '>', '#', '%', '|', ';', inner blanks, and 9/10/11-character PHYLIP names) and for every sequence length / line width within the bound, "
          "what FORMATTERS[fasta|gde|phylip|paml] writes is read back by every reader of that format as the same names (PHYLIP: first 9 characters), order and sequences.")
